@@ -16,7 +16,7 @@ CHECKS = {
    technique=TECH+"exhaustive enumeration of declarations and of statement sequences, oracle = differential catalogue comparison on two real SQLite engines",
    ref="3.13"),
  "C14": dict(
-   text="Every enumerated schema declaration is rendered by the real MySQL and PostgreSQL backends and parsed by that dialect's reference DDL parser (written from the manuals' statement synopses on top of the reference lexer and expression parser); the parse must succeed and return exactly the declared elements, in order, with a type name the dialect defines and lengths / precision / unsigned-ness / array dimensions preserved. Spaces, x {MySQL, PostgreSQL}: (1) 51 ColumnType/parameter combinations x every permutation of every subset of size <= 3 (quick) / 4 (thorough) of 11 column specifications, through CREATE TABLE and through ALTER TABLE ADD COLUMN; (2) 3847 tables: all subsets of {TEMPORARY, IF NOT EXISTS, table primary key (unnamed / named composite), unique, plain and FULLTEXT inline index, foreign key (9 action pairs, named and unnamed), table check, table comment} plus all subsets of ENGINE / COLLATE / CHARACTER SET; (3) ALTER TABLE option sequences up to length 2 (quick) / 3 (thorough) over ADD COLUMN [IF NOT EXISTS], RENAME / DROP COLUMN, ADD (named / unnamed) / DROP FOREIGN KEY and MODIFY COLUMN with and without a type and every permutation of <= 2 specifications; (4) CREATE INDEX (all 128 flag subsets, partial, schema-qualified, full-text), DROP INDEX, CREATE FOREIGN KEY with all 36 action pairs and unnamed, DROP FOREIGN KEY, RENAME / DROP (all flag subsets) / TRUNCATE TABLE, and PostgreSQL CREATE / DROP / ALTER TYPE and CREATE / DROP EXTENSION with all flag subsets.",
+   text="Every enumerated schema declaration is rendered by the real MySQL and PostgreSQL backends and parsed by that dialect's reference DDL parser (written from the manuals' statement synopses on top of the reference lexer and expression parser); the parse must succeed and return exactly the declared elements, in order, with a type name the dialect defines and lengths / precision / unsigned-ness / array dimensions preserved. Spaces, x {MySQL, PostgreSQL}: (1) 51 ColumnType/parameter combinations x every permutation of every subset of size <= 3 (quick) / 4 (thorough) of 11 column specifications, through CREATE TABLE and through ALTER TABLE ADD COLUMN; (2) 3847 tables: all subsets of {TEMPORARY, IF NOT EXISTS, table primary key (unnamed / named composite), unique, plain and FULLTEXT inline index, foreign key (9 action pairs, named and unnamed), table check, table comment} plus all subsets of ENGINE / COLLATE / CHARACTER SET; (3) ALTER TABLE option sequences up to length 2 (quick) / 3 (thorough) over ADD COLUMN [IF NOT EXISTS], RENAME / DROP COLUMN, ADD (named / unnamed) / DROP FOREIGN KEY and MODIFY COLUMN with and without a type and every permutation of <= 2 specifications; (4) CREATE INDEX (all 128 flag subsets, partial, schema-qualified, full-text), DROP INDEX, CREATE FOREIGN KEY with all 36 action pairs and unnamed, DROP FOREIGN KEY, RENAME / DROP (all flag subsets) / TRUNCATE TABLE, and PostgreSQL CREATE / DROP / ALTER TYPE and CREATE / DROP EXTENSION with all flag subsets; (5) every ColumnDef type method (45: char .. ltree, *_len forms, enumeration, array, custom, a type set twice) and the key / foreign-key convenience spellings against `new_with_type` / the canonical spelling, on all three backends.",
    note="Trusted: the reference DDL grammar (no MySQL / PostgreSQL engine is available offline) and the per-dialect table of accepted type names. Combinations the backend documents as unsupported (PostgreSQL auto_increment on non-integer types, MySQL interval / array / network types, PostgreSQL year, MySQL-only table options on PostgreSQL, contradictory specifications) are out of domain and counted.",
    technique=TECH+"exhaustive enumeration of schema declarations and ALTER option sequences, oracle = reference DDL parser per dialect compared with the declaration",
    ref="3.14"),
